@@ -219,8 +219,25 @@ Definition mk_and (a b : term) : term :=
   if existsb (fun t => const_is t false) l then TC 0
   else build_and (dedupe (isort (filter not_const l))).
 
+(* x * y <> 0 implies x <> 0 (and y <> 0): next to "x is non-zero" the disjunct "x * y is non-zero" is redundant *)
+Definition is_nzprod (t : term) : option (term * term) :=
+  match t with
+  | TNot (TCmp CEq (TA Mul a b) (TC z)) => if z =? 0 then Some (a, b) else None
+  | _ => None
+  end.
+Definition absorbed (l : list term) (t : term) : bool :=
+  match is_nzprod t with
+  | Some (a, b) =>
+      existsb (fun y => match is_nzprod y with
+                        | Some _ => false
+                        | None => term_eqb y (mk_nz a) || term_eqb y (mk_nz b)
+                        end) l
+  | None => false
+  end.
+
 Definition mk_or (a b : term) : term :=
-  let l := map mk_nz (disjuncts a ++ disjuncts b) in
+  let l0 := map mk_nz (disjuncts a ++ disjuncts b) in
+  let l := filter (fun t => negb (absorbed l0 t)) l0 in
   if existsb (fun t => const_is t true) l then TC 1
   else build_or (dedupe (isort (filter not_const l))).
 
@@ -599,11 +616,43 @@ Proof.
     reflexivity.
 Qed.
 
+Lemma nzprod_implies t a b : is_nzprod t = Some (a, b) -> tru t = true -> tru a = true /\ tru b = true.
+Proof.
+  unfold is_nzprod. destruct t; try discriminate. destruct t; try discriminate. destruct o; try discriminate.
+  destruct t1; try discriminate. destruct o; try discriminate. destruct t2; try discriminate.
+  destruct (z =? 0) eqn:Z0; [|discriminate]. apply Z.eqb_eq in Z0. subst z. intros E. inversion E; subst.
+  unfold tru. cbn [eval cmp]. rewrite nz_b2z_negb, wrap32_0. intros H. apply negb_true_iff in H.
+  rewrite nz_b2z_negb in H. apply Z.eqb_neq in H.
+  unfold nz. split; apply negb_true_iff, Z.eqb_neq; intros Q; apply H; cbn [arith]; rewrite Q.
+  - rewrite Z.mul_0_l. apply wrap32_0.
+  - rewrite Z.mul_0_r. apply wrap32_0.
+Qed.
+
+Lemma absorb_sound l0 : existsb tru (filter (fun t => negb (absorbed l0 t)) l0) = existsb tru l0.
+Proof.
+  destruct (existsb tru l0) eqn:E.
+  - apply existsb_exists in E as (x & I & T).
+    destruct (absorbed l0 x) eqn:A.
+    + unfold absorbed in A. destruct (is_nzprod x) as [[a b]|] eqn:P; [|discriminate].
+      apply existsb_exists in A as (y & Iy & Hy).
+      destruct (is_nzprod y) eqn:Py; [discriminate|].
+      destruct (nzprod_implies x a b P T) as [Ta Tb].
+      apply existsb_exists. exists y. split.
+      * apply filter_In. split; [exact Iy|]. unfold absorbed. rewrite Py. reflexivity.
+      * apply orb_true_iff in Hy as [Hy|Hy]; apply term_eqb_eq in Hy; subst y; rewrite tru_mk_nz; assumption.
+    + apply existsb_exists. exists x. split; [apply filter_In; split; [exact I | rewrite A; reflexivity] | exact T].
+  - destruct (existsb tru (filter _ l0)) eqn:F; [|reflexivity].
+    apply existsb_exists in F as (x & I & T). apply filter_In in I as [I _].
+    assert (existsb tru l0 = true) by (apply existsb_exists; exists x; split; assumption). congruence.
+Qed.
+
 Lemma mk_or_sound a b : ev (mk_or a b) = b2z (nz (ev a) || nz (ev b)).
 Proof.
-  unfold mk_or.
-  assert (T : nz (ev a) || nz (ev b) = existsb tru (map mk_nz (disjuncts a ++ disjuncts b))).
-  { rewrite existsb_map_nz, existsb_app, <- !disjuncts_sound. reflexivity. }
+  unfold mk_or. cbv zeta.
+  assert (T : nz (ev a) || nz (ev b)
+              = existsb tru (filter (fun t => negb (absorbed (map mk_nz (disjuncts a ++ disjuncts b)) t))
+                                    (map mk_nz (disjuncts a ++ disjuncts b)))).
+  { rewrite absorb_sound, existsb_map_nz, existsb_app, <- !disjuncts_sound. reflexivity. }
   rewrite T. destruct (existsb (fun t => const_is t true) _) eqn:E.
   - rewrite (existsb_true_existsb_true _ tru _ (fun t => const_is_sound t true) E). reflexivity.
   - rewrite build_or_sound, existsb_dedupe, (existsb_perm _ _ _ (isort_perm _)), existsb_filter_consts by exact E.
